@@ -71,6 +71,21 @@ pub fn lib_drop<T>(label: &str, v: T) -> Result<(), String> {
     lib(label, move || drop(v))
 }
 
+/// Drop `v` the way a panic in the caller's code does: by unwinding out of the scope that owns it
+/// (`std::thread::panicking()` is true while its destructor runs).
+pub fn lib_drop_unwinding<T>(label: &str, v: T) -> Result<(), String> {
+    struct CallerPanic;
+    let r = lib(label, move || {
+        let _owned = v;
+        std::panic::resume_unwind(Box::new(CallerPanic));
+    });
+    match r {
+        // the unwinding reached us: the handle's destructor has run
+        Err(_) => Ok(()),
+        Ok(()) => Ok(()),
+    }
+}
+
 pub fn now() -> u64 {
     sim().k.now
 }
